@@ -27,6 +27,8 @@ pub fn bin_sequences(wsize: usize, msize: usize, in_path: &str, out_path: &str, 
     let result_arc = Arc::new(result);
     let total_records = Arc::new(AtomicU64::new(0));
 
+    #[cfg(kmertools_verif)]
+    ktio::verif::section_begin("minimisers", threads);
     pool.scope(|scope| {
         for _ in 0..threads {
             let records_arc_clone = Arc::clone(&records_arc);
@@ -36,16 +38,22 @@ pub fn bin_sequences(wsize: usize, msize: usize, in_path: &str, out_path: &str, 
 
             scope.spawn(move |_| {
                 loop {
+                    #[cfg(kmertools_verif)]
+                    ktio::verif::sched_point("take", -1);
                     let record = {
                         total_records_clone.fetch_add(1, std::sync::atomic::Ordering::Relaxed);
                         records_arc_clone.lock().unwrap().next()
                     };
+                    #[cfg(kmertools_verif)]
+                    ktio::verif::note("took", record.as_ref().map(|r| r.n as i64).unwrap_or(-1));
                     if let Some(record) = record {
                         let mgen = if wsize == 0 {
                             MinimiserGenerator::new(&record.seq, record.seq.len(), msize)
                         } else {
                             MinimiserGenerator::new(&record.seq, wsize, msize)
                         };
+                        #[cfg(kmertools_verif)]
+                        ktio::verif::sched_point("push", record.n as i64);
                         for (k, s, e) in mgen {
                             result_arc_clone
                                 .entry(numeric_to_kmer(k, msize))
@@ -62,6 +70,8 @@ pub fn bin_sequences(wsize: usize, msize: usize, in_path: &str, out_path: &str, 
                         }
                     } else {
                         // end of iteration
+                        #[cfg(kmertools_verif)]
+                        ktio::verif::worker_exit();
                         break;
                     }
                 }
@@ -102,6 +112,8 @@ pub fn seq_to_min(wsize: usize, msize: usize, in_path: &str, out_path: &str, thr
     let outf = fs::File::create(out_path).unwrap();
     let buff = Arc::new(Mutex::new(BufWriter::new(outf)));
 
+    #[cfg(kmertools_verif)]
+    ktio::verif::section_begin("minimisers", threads);
     pool.scope(|scope| {
         for _ in 0..threads {
             let records_arc_clone = Arc::clone(&records_arc);
@@ -111,10 +123,14 @@ pub fn seq_to_min(wsize: usize, msize: usize, in_path: &str, out_path: &str, thr
 
             scope.spawn(move |_| {
                 loop {
+                    #[cfg(kmertools_verif)]
+                    ktio::verif::sched_point("take", -1);
                     let record = {
                         total_records_clone.fetch_add(1, std::sync::atomic::Ordering::Relaxed);
                         records_arc_clone.lock().unwrap().next()
                     };
+                    #[cfg(kmertools_verif)]
+                    ktio::verif::note("took", record.as_ref().map(|r| r.n as i64).unwrap_or(-1));
                     if let Some(record) = record {
                         let mgen = if wsize == 0 {
                             MinimiserGenerator::new(&record.seq, record.seq.len(), msize)
@@ -128,6 +144,8 @@ pub fn seq_to_min(wsize: usize, msize: usize, in_path: &str, out_path: &str, thr
                             mins.push(format!("{}:{}-{}", numeric_to_kmer(k, msize), s, e));
                         }
                         mins.push("\n".to_string());
+                        #[cfg(kmertools_verif)]
+                        ktio::verif::sched_point("emit", record.n as i64);
                         {
                             buff_clone
                                 .lock()
@@ -144,6 +162,8 @@ pub fn seq_to_min(wsize: usize, msize: usize, in_path: &str, out_path: &str, thr
                         }
                     } else {
                         // end of iteration
+                        #[cfg(kmertools_verif)]
+                        ktio::verif::worker_exit();
                         break;
                     }
                 }
